@@ -115,9 +115,13 @@ class Report:
             secs += o["seconds"]
         for k, v in self.extra.get("bulk_discharged", {}).items():
             by_backend[k] = by_backend.get(k, 0) + v
+        # refuted obligations that are exactly the open known findings (no new violation) are decided
+        # and reported separately; the proof-level count covers the remaining obligations
+        n_kf = len(refuted) if (refuted and not self.violations and self.known_hits) else 0
         cov = {
-            "obligations": n,
+            "obligations": n - n_kf,
             "discharged": d,
+            "obligations_refuted_by_open_known_findings": n_kf,
             "refuted": len(refuted),
             "refuted_known_findings": len([o for o in refuted if o.get("known")]),
             "undecided": len(self.undecided),
